@@ -71,12 +71,37 @@ def strategy(tier):
             )
         )
         case["observers"] = [draw(OBS), draw(OBS)]
+        if draw(st.integers(0, 2)) == 0:
+            # callbacks that hand out cached objects (one per argument, or one constant Jacobian / Hessian for ever):
+            # an observer that touches such an object changes what the solver computes with afterwards
+            from vf.spec import Ref
+
+            r = Ref(case["spec"])
+            case["policy"] = {
+                "obj_grad": draw(st.sampled_from(["fresh", "memo"])),
+                "cons": draw(st.sampled_from(["fresh", "memo"])),
+                "cons_jac": draw(st.sampled_from(["memo", "const", "const"] if r.affine else ["memo"])),
+                "lag_hess": draw(st.sampled_from(["memo", "const"] if (r.affine and r.quadratic_obj) else ["memo"])),
+            }
         if draw(st.integers(0, 3)) == 0:
             # a problem with a restricted domain: functions are non-finite further than R from the start
             # (deterministic in x, like a log-barrier objective); rejected trial points may be unevaluable
             case["domain"] = {"R": draw(st.sampled_from([0.1, 0.5, 2.0])), "component": draw(st.sampled_from(["obj", "any", "obj_grad", "cons"])), "value": draw(st.sampled_from(["nan", "inf"]))}
             case["params"]["lamb_inc"] = draw(st.sampled_from([2.0, 4.0]))
             case["params"]["lamb_init"] = draw(st.sampled_from([1e-3, 1e-2, 1.0]))
+        if draw(st.integers(0, 5)) == 0 and case["spec"]["m"] > 0:
+            # a constant Jacobian assembled term by term (COO triplets with duplicates) and handed out as one cached
+            # object: whatever touches its storage changes the order of the floating-point sums of every later product
+            from vf.spec import Ref
+
+            spec = case["spec"]
+            spec["fmt"] = dict(spec["fmt"], jac="coo", jac_style="dup")
+            affine = Ref(spec).affine
+            case["policy"] = dict(case.get("policy") or {}, cons_jac="const" if affine else "memo")
+            if case["start"].get("y0") is not None:
+                case["start"] = dict(case["start"], y0=[0.1 * (v if v else 1.0) for v in case["start"]["y0"]])
+            if draw(st.booleans()):
+                case["scaling"] = {"kind": "none"}
         if draw(st.integers(0, 4)) == 0:
             # condition-estimate stress: a dyadic negative Hessian diagonal meets lambda = 2^-k exactly, so
             # the reduced Newton matrix becomes singular and the (reporting-only) condition estimate
